@@ -26,7 +26,7 @@ for sid in ids:
     try:
         for p in props:
             t0 = time.time()
-            out = subprocess.run(["python3", "run/check.py", p], cwd="/verif", capture_output=True, text=True, env=dict(os.environ, VERIF_SEED="1")).stdout
+            out = subprocess.run(["python3", "run/check.py", p], cwd="/verif", capture_output=True, text=True, env=dict(os.environ, VERIF_SEED="1", VERIF_EVIDENCE_DIR="/var/tmp/verif-evidence-scratch")).stdout
             hit[p] = len(re.findall(r"^VIOLATION ", out, re.M))
             if hit[p]:
                 break
